@@ -93,7 +93,7 @@ func TestC25(t *testing.T) {
 	hup := make(chan os.Signal, 1)
 	signal.Notify(hup, syscall.SIGHUP)
 	defer signal.Stop(hup)
-	r.Rule("end-to-end runs of the real mtail.Server (not one-shot) with a program directory holding two fixed programs sharing a metric name with different kinds (the later one is refused at registration), a syntactically broken program and 1-2 generated programs (some raising runtime errors), and a history of log appends to two files incl. a file discovered by glob and a rotation, program edits / removals / re-adds each followed by SIGHUP. At the quiescent end: lines_total == lines written == fan-out hook count; log_lines_total[path] == lines written to path; prog_runtime_errors_total[p] == errors the reference interpreter predicts for the lines p processed; prog_loads / unloads / load_errors_total == model events (a refused registration and a compile failure count on every scan); log_count == live streams; the mtail_-prefixed series of a /metrics scrape equal the expvars. Non-trivial: run with >=1 reload step and >=1 runtime error; distinct by run index.")
+	r.Rule("end-to-end runs of the real mtail.Server (not one-shot) with a program directory holding two fixed programs sharing a metric name with different kinds (the later one is refused at registration), a syntactically broken program and 1-2 generated programs (some raising runtime errors), and a history of log appends to two files incl. a file discovered by glob and a rotation, program edits / removals / re-adds each followed by SIGHUP. At the quiescent end: lines_total == lines written == fan-out hook count; log_lines_total[path] == lines written to path; prog_runtime_errors_total[p] == errors the reference interpreter predicts for the lines p processed; prog_loads / unloads / load_errors_total == model events (a refused registration and a compile failure count on every scan); log_count == live streams; the mtail_-prefixed series of a /metrics scrape equal the expvars. Plus shutdown runs: a burst of lines, slow programs, wake-up and immediate cancellation; after Run returned lines_total == fan-out count == sum of log_lines_total. Non-trivial: run with >=1 reload step and >=1 runtime error; distinct by run index.")
 	r.Assume("steps are separated by logical barriers so every written line is delivered (C16 establishes that)", "program edits are comment-only so a program's semantics do not change within a run")
 	lh := func(id uint64, name string, l *logline.LogLine, phase int) {
 		if phase != 0 {
@@ -104,6 +104,9 @@ func TestC25(t *testing.T) {
 			procBy[name] = append(procBy[name], [2]string{l.Filename, l.Line})
 		}
 		mu.Unlock()
+		if d := shutdownStall.Load(); d > 0 {
+			time.Sleep(time.Duration(d))
+		}
 	}
 	fh := func(l *logline.LogLine) { fanouts.Add(1) }
 	lah := func() { loadAlls.Add(1) }
@@ -138,7 +141,110 @@ func TestC25(t *testing.T) {
 			r.Distinct(fmt.Sprint(run))
 		}
 	}
+	for run := 0; run < ev.Pick(25, 600) && r.Violations() == 0; run++ {
+		what := shutdownRun(t, rng.Sub(100000+run), base, run)
+		r.Eval(1)
+		if strings.HasPrefix(what, "INCONCLUSIVE") {
+			r.Inconclusive(what)
+			break
+		}
+		if what != "" {
+			r.Violation(cls(what), map[string]any{"shutdown_run": run, "what": what})
+			continue
+		}
+		r.Count("shutdown_runs_reconciled", 1)
+	}
 }
+
+// shutdownRun: the counters must also agree when the server is stopped in the
+// middle of delivery. A burst of lines is appended, the programs are made slow
+// (stall at the VM line hook, so the loader stops taking lines and the tailer's
+// forwarders sit in their send), the streams are woken and the server is
+// cancelled at once. However many lines make it, after Run has returned the
+// loader's lines_total, the fan-out count and the streams' log_lines_total
+// describe the same lines.
+func shutdownRun(t *testing.T, g *ev.RNG, base string, run int) string {
+	dir := filepath.Join(base, fmt.Sprintf("s%d", run))
+	progDir, logDir := filepath.Join(dir, "progs"), filepath.Join(dir, "logs")
+	_ = os.MkdirAll(progDir, 0o755)
+	_ = os.MkdirAll(logDir, 0o755)
+	defer os.RemoveAll(dir)
+	pfx := fmt.Sprintf("s%d_", run)
+	mu.Lock()
+	prefix, procBy = pfx, map[string][][2]string{}
+	mu.Unlock()
+	_ = os.WriteFile(filepath.Join(progDir, pfx+"p.mtail"), []byte(fmt.Sprintf("counter sd_%d\n/./ {\n  sd_%d++\n}\n", run, run)), 0o644)
+	logs := []string{filepath.Join(logDir, "a.log"), filepath.Join(logDir, "b.log")}
+	for _, l := range logs {
+		_ = os.WriteFile(l, nil, 0o644)
+	}
+	fan0, lines0 := fanouts.Load(), expInt("lines_total")
+	log0 := map[string]int64{}
+	for _, l := range logs {
+		log0[l] = expMap("log_lines_total", l)
+	}
+	streamW, patternW := fsdrv.NewStepWaker(), fsdrv.NewStepWaker()
+	ctx, cancel := context.WithCancel(context.Background())
+	defer cancel()
+	m, err := mtail.New(ctx, metrics.NewStore(), mtail.ProgramPath(progDir), mtail.LogPathPatterns(filepath.Join(logDir, "*.log")),
+		mtail.LogstreamPollWaker(streamW), mtail.LogPatternPollWaker(patternW), mtail.BindUnixSocket(filepath.Join(dir, "http.sock")))
+	if err != nil {
+		return "server-start: " + err.Error()
+	}
+	runDone := make(chan error, 1)
+	go func() { runDone <- m.Run() }()
+	if !fsdrv.Await(func() bool { return streamW.Waiting() >= 2 && patternW.Waiting() >= 1 }, watchdog) {
+		cancel()
+		return "INCONCLUSIVE startup barrier (shutdown run)\n" + dump()
+	}
+	appendN := func(path string, n int) {
+		f, _ := os.OpenFile(path, os.O_APPEND|os.O_WRONLY, 0o644)
+		for i := 0; i < n; i++ {
+			fmt.Fprintf(f, "line %d of %s\n", i, filepath.Base(path))
+		}
+		f.Close()
+	}
+	// a delivered prefix, behind a barrier
+	pre := g.Range(0, 5)
+	appendN(logs[0], pre)
+	streamW.Broadcast()
+	if !fsdrv.Await(func() bool { return streamW.Waiting() >= 2 }, watchdog) {
+		cancel()
+		return "INCONCLUSIVE barrier (shutdown run)\n" + dump()
+	}
+	// the burst, slow programs, wake-up and immediate cancellation
+	for _, l := range logs {
+		appendN(l, g.Range(20, 120))
+	}
+	shutdownStall.Store(int64(g.Range(50, 400)) * int64(time.Microsecond))
+	streamW.Broadcast()
+	if g.Bool() {
+		time.Sleep(time.Duration(g.Intn(2000)) * time.Microsecond)
+	}
+	cancel()
+	streamW.Broadcast()
+	patternW.Broadcast()
+	select {
+	case <-runDone:
+	case <-time.After(watchdog):
+		shutdownStall.Store(0)
+		return "INCONCLUSIVE server did not shut down (shutdown run)\n" + dump()
+	}
+	shutdownStall.Store(0)
+	var fromStreams int64
+	per := map[string]int64{}
+	for _, l := range logs {
+		per[filepath.Base(l)] = expMap("log_lines_total", l) - log0[l]
+		fromStreams += per[filepath.Base(l)]
+	}
+	got, fan := expInt("lines_total")-lines0, fanouts.Load()-fan0
+	if got != fromStreams || fan != fromStreams {
+		return fmt.Sprintf("lines_total: after a shutdown in mid-delivery the loader counted %d lines (fan-out hook %d) but the log streams counted %d delivered lines (%v)", got, fan, fromStreams, per)
+	}
+	return ""
+}
+
+var shutdownStall atomic.Int64
 
 func cls(w string) string {
 	f := strings.Fields(w)
